@@ -95,11 +95,18 @@ theorem postStep_overTime_ok {path : List Nat} {n : K} {w w' : World K} {ws ws' 
     exact ⟨h1, sd, kids, hk, rfl⟩
   · cases h
 
-/-- whatever the steps: the world handed to `Rebalance` is the world the stack started on, or its refresh (the
-    refreshing getter `LimitDeltas` reads the children's weights through) -/
+/-- `CloseDead` is the one post-processing algo that trades (`target.close`) -/
+def WStep.isClose : WStep K → Bool
+  | .closeDead => true
+  | _ => false
+
+/-- whatever the steps (no `CloseDead` among them): the world handed to `Rebalance` is the world the stack started on, or
+    its refresh (the refreshing getter `LimitDeltas` reads the children's weights through) -/
 theorem postStep_world {path : List Nat} {st : WStep K} {w w' : World K} {ws ws' : List (Nat × K)}
+    (hc : WStep.isClose st = false)
     (h : postStep cfg path st (w, ws) = .ok (w', ws')) : w' = w ∨ refresh cfg w = .ok w' := by
   cases st with
+  | closeDead => simp [WStep.isClose] at hc
   | scale s => cases h; exact Or.inl rfl
   | limitW l => exact Or.inl (postStep_limitW_ok h).1
   | limitD order glob per =>
@@ -120,23 +127,27 @@ theorem postStep_world {path : List Nat} {st : WStep K} {w w' : World K} {ws ws'
     · cases h
 
 theorem postSteps_world {path : List Nat} : ∀ (sts : List (WStep K)) {w w' : World K} {ws ws' : List (Nat × K)},
+    (∀ st ∈ sts, WStep.isClose st = false) →
     postSteps cfg path sts (w, ws) = .ok (w', ws') → w' = w ∨ refresh cfg w = .ok w'
-  | [], w, w', ws, ws', h => by rw [postSteps_nil] at h; cases h; exact Or.inl rfl
-  | st :: rest, w, w', ws, ws', h => by
+  | [], w, w', ws, ws', _, h => by rw [postSteps_nil] at h; cases h; exact Or.inl rfl
+  | st :: rest, w, w', ws, ws', hc, h => by
     rw [postSteps_cons] at h
     obtain ⟨⟨w1, ws1⟩, h1, h2⟩ := bind_eq_ok h
-    rcases postStep_world h1 with e | hr
-    · rw [e] at h2; exact postSteps_world rest h2
-    · rcases postSteps_world rest h2 with e | hr2
+    have hc' : ∀ st ∈ rest, WStep.isClose st = false := fun st hst => hc st (List.mem_cons_of_mem _ hst)
+    rcases postStep_world (hc _ List.mem_cons_self) h1 with e | hr
+    · rw [e] at h2; exact postSteps_world rest hc' h2
+    · rcases postSteps_world rest hc' h2 with e | hr2
       · rw [e]; exact Or.inr hr
       · rw [refresh_idem_aux hr] at hr2
         cases hr2
         exact Or.inr hr
 
-/-- steps that do not read the children's weights (`LimitDeltas`, `RebalanceOverTime` do) do not touch the world -/
+/-- steps that do not read the children's weights (`LimitDeltas`, `RebalanceOverTime` do) and do not trade (`CloseDead` does)
+    do not touch the world -/
 def WStep.isLimitD : WStep K → Bool
   | .limitD _ _ _ => true
   | .overTime _ => true
+  | .closeDead => true
   | _ => false
 
 theorem postSteps_world_pure {path : List Nat} : ∀ (sts : List (WStep K)) {w w' : World K} {ws ws' : List (Nat × K)},
@@ -151,6 +162,7 @@ theorem postSteps_world_pure {path : List Nat} : ∀ (sts : List (WStep K)) {w w
       | limitW l => exact (postStep_limitW_ok h1).1
       | limitD o g p => exact absurd (hp _ (List.mem_cons_self)) (by simp [WStep.isLimitD])
       | overTime n => exact absurd (hp _ (List.mem_cons_self)) (by simp [WStep.isLimitD])
+      | closeDead => exact absurd (hp _ (List.mem_cons_self)) (by simp [WStep.isLimitD])
     rw [e1] at h2
     exact postSteps_world_pure rest (fun st hst => hp st (List.mem_cons_of_mem _ hst)) h2
 
@@ -173,16 +185,12 @@ theorem weigherOut_specified (tbl : List (Nat × K)) (sel : Option (List Nat)) :
     weigherOut (.specified tbl) sel = some tbl := by
   cases sel <;> rfl
 
-/-- **unfolding of the extended stack** on a day on which the gate is open and every selector answers -/
-theorem progRunX_unfold {p : ProgX K} {path : List Nat} {d : Nat} {w : World K} {sd : StratData K}
-    {kids : List (Node K)} {sel : Option (List Nat)} {ws0 : List (Nat × K)}
-    (hg : p.gate.getD d false = true) (hn : w.root.get? path = some (.strat sd kids))
-    (hs : selSteps (tableOf p.ucols kids d) d p.sels none = .ok (some sel))
-    (hw : weigherOut p.wgh sel = some ws0) :
-    progRunX cfg p path d w =
-      (postSteps cfg path p.post (w, ws0)).bind fun s => algoRebalance cfg s.1 path s.2 p.cash none := by
-  unfold progRunX
-  simp only [hg, ↓reduceIte, hn, hs]
+/-- a stack whose weigher is `WeighEqually` / `WeighSpecified` (no `WeighTarget` frame): `weigherX` is `weigherOut` -/
+theorem weigherX_of_weigherOut {p : ProgX K} {d : Nat} {sel : Option (List Nat)} {ws0 : List (Nat × K)}
+    (ht : p.target = none) (hw : weigherOut p.wgh sel = some ws0) : weigherX p d sel = .ok (some ws0) := by
+  unfold weigherX
+  rw [ht]
+  simp only
   cases hwg : p.wgh with
   | equally =>
     cases sel with
@@ -192,6 +200,48 @@ theorem progRunX_unfold {p : ProgX K} {path : List Nat} {d : Nat} {w : World K} 
     rw [hwg, weigherOut_specified] at hw
     cases hw
     cases sel <;> rfl
+
+/-- `WeighTarget(frame)`: the weights are the frame's row for the date, whatever is selected -/
+theorem weigherX_target {p : ProgX K} {rows : List (Option (List (Nat × K)))} (ht : p.target = some rows) (d : Nat)
+    (sel : Option (List Nat)) : weigherX p d sel = .ok (rows.getD d none) := by
+  unfold weigherX
+  rw [ht]
+  rfl
+
+/-- **unfolding of the extended stack** on a day on which the gate is open, every selector answers and the weigher
+    produces `ws0` (`weigherX`: `WeighEqually` / `WeighSpecified` on the selection, or the row of the `WeighTarget` frame) -/
+theorem progRunX_unfoldX {p : ProgX K} {path : List Nat} {d : Nat} {w : World K} {sd : StratData K}
+    {kids : List (Node K)} {sel : Option (List Nat)} {ws0 : List (Nat × K)}
+    (hg : p.gate.getD d false = true) (hn : w.root.get? path = some (.strat sd kids))
+    (hs : selSteps (tableOf p.ucols kids d) d p.sels none = .ok (some sel))
+    (hw : weigherX p d sel = .ok (some ws0)) :
+    progRunX cfg p path d w =
+      (postSteps cfg path p.post (w, ws0)).bind fun s => algoRebalance cfg s.1 path s.2 p.cash none := by
+  unfold progRunX
+  simp only [hg, ↓reduceIte, hn, hs, hw]
+  rfl
+
+/-- the same for a stack without a `WeighTarget` frame, the weigher's output given by `weigherOut` -/
+theorem progRunX_unfold {p : ProgX K} {path : List Nat} {d : Nat} {w : World K} {sd : StratData K}
+    {kids : List (Node K)} {sel : Option (List Nat)} {ws0 : List (Nat × K)}
+    (hg : p.gate.getD d false = true) (hn : w.root.get? path = some (.strat sd kids))
+    (hs : selSteps (tableOf p.ucols kids d) d p.sels none = .ok (some sel))
+    (ht : p.target = none) (hw : weigherOut p.wgh sel = some ws0) :
+    progRunX cfg p path d w =
+      (postSteps cfg path p.post (w, ws0)).bind fun s => algoRebalance cfg s.1 path s.2 p.cash none :=
+  progRunX_unfoldX hg hn hs (weigherX_of_weigherOut ht hw)
+
+/-- a `WeighTarget` frame without a row for the date stops the stack: nothing happens that day -/
+theorem progRunX_no_target_row {p : ProgX K} {path : List Nat} {d : Nat} {w : World K} {sd : StratData K}
+    {kids : List (Node K)} {sel : Option (List Nat)} {rows : List (Option (List (Nat × K)))}
+    (hn : w.root.get? path = some (.strat sd kids))
+    (hs : selSteps (tableOf p.ucols kids d) d p.sels none = .ok (some sel))
+    (ht : p.target = some rows) (hr : rows.getD d none = none) :
+    progRunX cfg p path d w = .ok w := by
+  unfold progRunX
+  split
+  · simp only [hn, hs, weigherX_target ht, hr]; rfl
+  · rfl
 
 /-- a selector that returns False stops the stack: nothing happens that day -/
 theorem progRunX_sel_false {p : ProgX K} {path : List Nat} {d : Nat} {w : World K} {sd : StratData K}
